@@ -231,7 +231,7 @@ def check(tier, replay=None):
     if os.environ.get("VERIF_DEV_SKIP_PROOF"):
         proof = core.ProofResult(); core.run(["lake", "build", "driver"], cwd=core.LEAN)
     else:
-        proof = core.lean_prove(["AscentVerif.Props.C19", "AscentVerif.Props.C19Bridge"], leanchecker=(tier == "thorough"))
+        proof = core.lean_prove(["AscentVerif.Props.C19", "AscentVerif.Props.C19Bridge", "AscentVerif.Props.C05Par"], leanchecker=(tier == "thorough"))
         core.require_theorems(proof, THEOREMS)
     r.proof(proof, "lake build AscentVerif.Props.C19 && #audit_module (axioms of every theorem)" + (" && lake env leanchecker" if tier == "thorough" else ""))
     binary, blog = tiec.build_ds(r)
